@@ -18,6 +18,8 @@ func init() {
 				What: "same for Number, including the four print forms and exponent arithmetic"},
 			{Harness: modPath + ".specHarnessNumberExp", For: modPath + ".Number", QuickN: 8, ThoroughN: 10,
 				What: "the same clauses on the family D+.D+eD (digits moved across the dot, print case 1), explored deeper than the full lexeme space"},
+			{Harness: modPath + ".specHarnessNumberNegExp", For: modPath + ".Number", QuickN: 8, ThoroughN: 10,
+				What: "the same clauses on the family -D+.D+e-D (signed mantissa, zeros inserted after the dot: offsets relative to the first digit), explored deeper than the full lexeme space"},
 		},
 		Custom:  []string{"partial"},
 		Partial: []string{modPath + ".Number"},
@@ -102,7 +104,8 @@ func init() {
 			"github.com/tdewolff/parse/v2/js.(*Scope).AddUndeclared",
 		},
 		Custom:  []string{"partial"},
-		Partial: []string{modPath + "/js.(*jsMinifier).hoistVars", modPath + "/js.(*jsMinifier).minifyProperty"},
+		Partial: []string{modPath + "/js.(*jsMinifier).hoistVars", modPath + "/js.(*jsMinifier).minifyProperty",
+			modPath + "/js.(*jsMinifier).minifyFuncDecl", modPath + "/js.(*jsMinifier).minifyMethodDecl", modPath + "/js.(*jsMinifier).minifyArrowFunc", modPath + "/js.(*jsMinifier).minifyStmt"},
 		Bounded: []BoundedUnit{
 			{Harness: modPath + "/js.specHarnessRenamerNames2", For: modPath + "/js.(*renamer).getName", QuickN: 1, ThoroughN: 1, Tier: "quick",
 				What: "every index of a one- or two-character name, both alphabets, in-place and reallocating buffers: getName yields an IdentifierName and getIndex(getName(i)) == i (hence injective)"},
@@ -126,6 +129,8 @@ func init() {
 		Bounded: []BoundedUnit{
 			{Harness: modPath + ".specHarnessJSONNumber", For: modPath + ".Number", QuickN: 6, ThoroughN: 8,
 				What: "every RFC 8259 number lexeme: Number(x,0) plus the leading-zero repair is a JSON number of exactly the same value"},
+			{Harness: modPath + ".specHarnessJSONNumberNegExp", For: modPath + ".Number", QuickN: 8, ThoroughN: 10,
+				What: "the same clauses on the family -D+.D+e-D (signed mantissa, zeros inserted after the dot), explored deeper than the full lexeme space"},
 		},
 		Notes: []string{
 			"per-iteration (two-state) contract of the token loop of the real json.(*Minifier).Minify over an abstract token stream: skipComma bookkeeping at every back edge, ',' written exactly when the previous token did not open a container and the parser state is ObjectKey/Array, ':' for ObjectValue, no separator otherwise, the token text is the last write of the iteration, KeepNumbers => Number is not called, a leading '.' after Number is preceded by the write of \"0\" or \"-0\"; end of input: result nil only after a successful zero-length probe write that is the last write",
@@ -157,7 +162,7 @@ func init() {
 			modPath + "/js.toNullishExpr", modPath + "/js.minifyString", modPath + "/js.(*jsMinifier).optimizeCondExpr",
 			modPath + "/js.(*jsMinifier).minifyStmt", modPath + "/js.(*jsMinifier).minifyExpr",
 			modPath + "/js.(*renamer).renameScope", modPath + "/json.(*Minifier).Minify", modPath + "/html.(*Minifier).Minify",
-			modPath + "/cmd/minify.run",
+			modPath + "/cmd/minify.run", modPath + "/js.(*jsMinifier).minifyProperty",
 		},
 		Notes: []string{
 			"version gates as call-site preconditions / site assertions on the real js code: p_es(v) is DEFINED as (*Minifier).minVersion(v) of the running call; the rewrites that INTRODUCE newer syntax - ?? and ?. (toNullishExpr, ES2020), back-tick quoting (minifyString, ES2015), binding-less catch (ES2019), ** from Math.pow (ES2016) - carry `requires/assert p_es(v)` and every call site / program point must establish it from the branch conditions dominating it. Found and fixed F6 (Math.pow => ** had no version guard)",
@@ -170,7 +175,7 @@ func init() {
 	registerProp(&PropSpec{
 		ID:     "C19",
 		Custom: []string{"partial"},
-		Partial: []string{modPath + "/cmd/minify.minify", modPath + "/cmd/minify.run"},
+		Partial: []string{modPath + "/cmd/minify.minify", modPath + "/cmd/minify.run", modPath + "/cmd/minify.createTasks$fn1"},
 		Units:  []string{modPath + ".(*M).MinifyMimetype", modPath + ".(*M).Minify", modPath + "/cmd/minify.compilePattern", modPath + "/cmd/minify.openOutputFile"},
 		Notes: []string{
 			"openOutputFile under full contract: the destination is opened write-only, created and TRUNCATED (flags of the single os.OpenFile event), stdout for the empty name; run() (partial; channel operations end the verified path): whether an input has a trailing separator is decided on the name as given, not on the cleaned name",
